@@ -160,6 +160,18 @@ type SpecFn struct {
 	// fold: F(args, k) = ite(k<=0, FoldUnit, FoldOp(F(args, k-1), Def[j := k-1])); the last parameter is k. The function
 	// itself is uninterpreted over the heaps in Reads; one unfolding is emitted for every k it is evaluated at.
 	FoldUnit, FoldOp string
+	// opaque: a pure function (SMT-sorted parameters, no heap) that is left uninterpreted; its definition is used only
+	// in functions whose contract says `opt reveal NAME` and in the proofs of the `fact`s stated about it
+	Opaque bool
+}
+
+// Fact: a universally quantified statement about opaque spec functions. It is proved once from their definitions (an
+// obligation of class `fact`) and is then available wherever those functions are used.
+type Fact struct {
+	Name     string
+	Vars     []SpecParam
+	Patterns []*Sx
+	Body     *Sx
 }
 
 type SpecParam struct {
@@ -185,6 +197,7 @@ type Contracts struct {
 	Sigs          map[string]*Contract // function-type string -> family contract for calls through values of that type
 	FieldAssume map[string]*Sx // "pkg.Type.field" -> assumed fact about every value loaded from that field (name: value)
 	Axioms []Axiom
+	Facts  []*Fact
 	Patterns []*Contract // `//@ funcs <regexp>` blocks: clauses applied to every matching function
 	merged   map[string]*Contract
 	ByFunc  map[string]*Contract
@@ -298,6 +311,23 @@ func (cs *Contracts) parseFile(path, text string) error {
 				return fmt.Errorf("%s: %v", where, err)
 			}
 			cs.Specs[sf.Name] = sf
+			cur = nil
+			continue
+		case "fact":
+			// fact NAME ((x Int) ...) (pattern t1 t2 ...) body
+			nm, ex := splitWord(rest)
+			es, err := parseSxAll(ex)
+			if err != nil || len(es) != 3 || !es[0].IsList || !es[1].IsList || len(es[1].List) < 2 || es[1].List[0].Atom != "pattern" {
+				return fmt.Errorf("%s: fact needs a variable list, a (pattern ...) and a body", where)
+			}
+			f := &Fact{Name: nm, Body: es[2], Patterns: es[1].List[1:]}
+			for _, v := range es[0].List {
+				if !v.IsList || len(v.List) != 2 {
+					return fmt.Errorf("%s: bad fact variable", where)
+				}
+				f.Vars = append(f.Vars, SpecParam{Name: v.List[0].Atom, Sort: v.List[1].String()})
+			}
+			cs.Facts = append(cs.Facts, f)
 			cur = nil
 			continue
 		case "axiom":
@@ -508,6 +538,10 @@ func parseSpecDecl(rest string) (*SpecFn, error) {
 		}
 		sf.Def = es[0]
 		tail = strings.TrimSpace(tail[:k])
+	}
+	if strings.HasSuffix(tail, " opaque") || tail == "opaque" {
+		sf.Opaque = true
+		tail = strings.TrimSpace(strings.TrimSuffix(tail, "opaque"))
 	}
 	if k := strings.Index(tail, " fold "); k >= 0 {
 		f := strings.Fields(tail[k+6:])
